@@ -11,6 +11,19 @@ TRUST = ('TLC/SANY (and Apalache where named), the JSON bridge between TLC and t
          'guards the bridge. ')
 
 CHECKS = {
+    'C11': dict(
+        technique='TLA+ recognisers over token descriptions (spec/Net.tla: IPv4, IPv6 with :: / embedded IPv4 / scope, CIDR, MAC, integer ranges) enumerated by TLC (62k cases) plus a character-level dotted-quad recogniser over every string up to length 7; every case rendered and put to the validators; the standard library ipaddress parser as a second oracle that must agree with the recogniser wherever it defines the answer; random strings for totality',
+        category='model_checking',
+        text='Each validator has a declarative recogniser in TLA+; TLC enumerates the grammar families of the property (1..5 parts x 22 '
+             'octet spellings, 0..9 groups with every :: placement, scope ids of length 0..17, 0..2 slashes x 14 prefix spellings, '
+             '4..8 MAC groups x separators, integers around each range end as str/int/padded/signed) and all 336k/2.4M strings up to '
+             'length 7 over a small alphabet for dotted quads. The harness renders each case, compares the truthiness of the '
+             'validator with the recogniser, cross-checks the recogniser against ipaddress (a disagreement is a machinery error), '
+             'and calls every validator on 20k/300k random strings (NUL, %, /, non-ASCII) to show they answer rather than raise.',
+        design_ref='6/C11',
+        note=TRUST + 'is_valid_ip is only exercised with canonical four-part quads for IPv4 (it deliberately accepts inet_aton '
+             'spellings); is_valid_ipv6_cidr accepts a bare address (asserted by the repository test); netaddr leniencies outside '
+             'the grammar are not generated.'),
     'C09': dict(
         technique='TLA+ interpreter of handler-body programs (spec/ExcHelpers.tla): a behaviour is a program, TLC state graph = all programs over 10 operations up to length 4/5 with their outcome (what propagates, logger calls); invariants CompletesReraises / CompletesSilent / BodyRaisePropagates / NeverInvents; each program compiled to Python and run against save_and_reraise_exception with 5 exception classes (identity, traceback tail, logger.error count); decision tables for exception_filter, remove_path_on_error, raise_with_cause replayed',
         category='model_checking',
